@@ -3,6 +3,7 @@ import Tickit.Model.EvLoopMulti
 import Tickit.Model.EvLoopFb
 import Tickit.Model.EvLoopSpec
 import Tickit.Model.EvLoopTerm
+import Tickit.Model.EvLoopUnbind
 import Tickit.Gen.EvLoop
 import Tickit.Driver.Common
 /-
@@ -160,6 +161,8 @@ structure DSt where
   ttmode : Bool := false
   /-- the observer list of term.c (`first_sigwinch_observer` …) -/
   tobs : List Nat := []
+  /-- unbind handlers (`ubeh k …`, Model/EvLoopUnbind.lean) -/
+  ubehs : List Beh := []
 
 def cfgOfSource : Config :=
   { ioFlagMask := Gen.EvLoop.ioFlagMask, timersPop := Gen.EvLoop.timersPop, errnoSaved := Gen.EvLoop.errnoSaved,
@@ -224,17 +227,51 @@ def stepObs (d : DSt) (observe : Bool) (impl : String) : DSt × String × String
     let (s, verdict) := Spec.step d.s (.op (.clock 0)) (toks impl) why 0
     ({ d with m := w, s := s, tobs := tobs }, showObs w.st (.clock 0) false [], verdict)
 
+/-- `ubeh k a1 a2 …`: the unbind handler of watch slot `k`. -/
+def stepUbeh (d : DSt) (k : Int) (acts : List String) : DSt × String × String :=
+  let w0 := d.m
+  let st := { w0.st with log := [] }
+  if !w0.st.alive then (d, showObs st (.clock 0) true [], "")
+  else if d.ubehs.any (fun (b : Beh) => b.k = k) || !w0.st.isOk then (d, showObs st (.clock 0) false [], "")
+  else
+    let b : Beh := { k := k, n := 0, acts := acts.map fun t => match parseAct t with | .cancel _ => .nop | x => x }
+    ({ d with ubehs := d.ubehs ++ [b], s := { d.s with ubehs := d.s.ubehs ++ [b] } }, showObs st (.clock 0) false [], "")
+
+/-- A top-level `cancel k` of a watch that has an unbind handler (Model/EvLoopUnbind.lean). -/
+def stepCancelU (d : DSt) (k : Int) (impl : String) : DSt × String × String :=
+  let w0 := d.m
+  let dead := !w0.st.alive
+  let w := w0.sync (applyCancelU d.ubehs w0.st k)
+  let m := w.st
+  let why := match m.status with
+    | .ub x => ubName x
+    | .killed s => s!"killed by signal {s}"
+    | _ => ""
+  let owner := match m.status with
+    | .ub x => ubOwner x
+    | _ => 0
+  let (s, verdict) := Spec.step d.s (.op (.act (.cancel k))) (toks impl) why owner
+  ({ d with m := w, s := s }, showObs m (.act (.cancel k)) dead [], verdict)
+
 def step (d : DSt) (ts : List String) (impl : String) : DSt × String × String :=
   -- `new [Cnn] fb` starts a history in the self-pipe configuration
   let startsFb := ts.head? = some "new" && ts.contains "fb"
   let startsNew := ts.head? = some "new"
   let startsTt := startsNew && !startsFb && ts.contains "tt"
-  let d := if startsNew then { d with ttmode := startsTt, tobs := if startsTt then [0] else [] } else d
+  let d := if startsNew then { d with ttmode := startsTt, tobs := if startsTt then [0] else [], ubehs := [] } else d
   let ts := if startsNew then ts.filter (· ≠ "tt") else ts
   if startsFb || (d.fb && !startsNew) then stepFb d (ts.filter (· ≠ "fb")) impl else
   let d := { d with fb := false }
   if !d.fb && ts = ["obs", "1"] then stepObs d true impl else
   if !d.fb && ts = ["obs", "0"] then stepObs d false impl else
+  let ub? : Option (Int × List String) := match ts with
+    | "ubeh" :: k :: acts => (int? k).map fun k => (k, acts)
+    | _ => none
+  if let some (k, acts) := ub? then stepUbeh d k acts else
+  let cu? : Option Int := match ts with
+    | ["cancel", k] => (int? k).bind fun k => if d.ubehs.any (fun (b : Beh) => b.k = k) then some k else none
+    | _ => none
+  if let some k := cu? then stepCancelU d k impl else
   let wop := parseWOp ts
   let op := match wop with | .op o => o | _ => .bad
   let named := match wop with | .op _ => false | _ => true
